@@ -44,12 +44,25 @@ Definition fix_blockname (n : str) : str :=
       then slice 0 3 n ++ "0"%char :: slice 4 5 n else n
   | _, _, _ => n
   end.
-Definition block_name_c (conv : nat) (lay col : str) : str :=
-  fix_blockname (match conv with
-                 | 0 | 3 => slice 0 3 col ++ slice 0 2 lay
-                 | 1 => slice 0 3 lay ++ slice 0 2 col
-                 | _ => slice 0 2 lay ++ slice 0 3 col
-                 end).
+Definition raw_name_c (conv : nat) (lay col : str) : str :=
+  match conv with
+  | 0 | 3 => slice 0 3 col ++ slice 0 2 lay
+  | 1 => slice 0 3 lay ++ slice 0 2 col
+  | _ => slice 0 2 lay ++ slice 0 3 col
+  end.
+Definition block_name_c (conv : nat) (lay col : str) : str := fix_blockname (raw_name_c conv lay col).
+(** [fix_blockname] indexes name[2], then (if that is a digit) name[4]: IndexError on short names.
+    Geometry names have the lengths of their convention (part of [wf] through [names_okb]), so the
+    mapping model uses the total [block_name]; the generator model, where the "layer" part of a
+    generator name is arbitrary user text, uses the checked [block_name_r]. *)
+Definition fix_raises (n : str) : bool :=
+  match nth_error n 2 with
+  | None => true
+  | Some c2 => if is_digit c2 then match nth_error n 4 with None => true | Some _ => false end else false
+  end.
+Definition block_name_r (conv : nat) (lay col : str) : res str :=
+  let raw := raw_name_c conv lay col in
+  if fix_raises raw then Raise IndexError else Ok (fix_blockname raw).
 Definition column_name_c (conv : nat) (b : str) : str :=
   match conv with 0 => slice 0 3 b | 1 => slice 3 5 b | 2 => slice 2 5 b | 3 => slice 0 3 b | _ => [] end.
 Definition layer_name_c (conv : nat) (b : str) : str :=
